@@ -1,1 +1,1 @@
-let () = Driver.main ()
+let () = ignore Driver2.fam_lu; Driver.main ()
